@@ -658,7 +658,8 @@ impl Check for C18 {
                "stub": ["reqwest client + TLS + TCP + S3 (in-process endpoint behind the reqwest::get seam)", "system clock (Utc::now seam, with skew)", "uploader and consumer are scripted world state evaluated at scheduling points"]})
     }
     fn required_probes(&self, tier: Tier) -> Vec<&'static str> {
-        let mut v = vec!["volume_boundary_crossed", "wrap_999_to_1_delivered", "joined_next_volume_late", "stop_sent", "delivery_after_stop", "chunk_receiver_dropped", "stats_receiver_dropped", "error_consumer_gone", "error_chunk_never_appeared", "visibility_delay_attempts", "fault.transient_404", "fault.status_5xx", "fault.send_error", "fault.body_cut", "fault.list_5xx", "fault.latency", "startup_error", "returned_ok"];
+        // only probes that do not depend on a free choice of the code under test
+        let mut v = vec!["volume_boundary_crossed", "wrap_999_to_1_delivered", "stop_sent", "chunk_receiver_dropped", "stats_receiver_dropped", "error_consumer_gone", "error_chunk_never_appeared", "visibility_delay_attempts", "fault.transient_404", "fault.status_5xx", "fault.send_error", "fault.body_cut", "fault.list_5xx", "fault.latency", "returned_ok"];
         if tier == Tier::Thorough {
             v.push("full_rotation_completed");
         }
